@@ -87,14 +87,21 @@ struct PPolyAdapter final : vf::IPPoly
     double duration() const override { return pp.getDuration(); }
     std::vector<double> breakpoints() const override { return pp.getBreakpoints(); }
     MatrixXd coefficients() const override { return fromMat(pp.getCoefficients()); }
-    VectorXd eval(double t, int k) const override { return fromVec(pp.evaluate(t, k)); }
+    VectorXd eval(double t, int k) const override
+    {
+        return vf::consumeHeld([&]() -> decltype(auto) { return pp.evaluate(t, k); }, [&]() -> decltype(auto) { return pp.evaluate(t + 0.37, k); }, [](const Vec &v) { return fromVec(v); });
+    }
     VectorXd evalEnum(double t, int k) const override
     {
         if (k < 0)
             return fromVec(pp.evaluate(t));
         return fromVec(pp.evaluate(t, static_cast<Deriv>(k)));
     }
-    VectorXd evalHint(double t, int *hint, int k) const override { return fromVec(pp.evaluate(t, hint, k)); }
+    VectorXd evalHint(double t, int *hint, int k) const override
+    {
+        int h2 = hint ? *hint : 0;
+        return vf::consumeHeld([&]() -> decltype(auto) { return pp.evaluate(t, hint, k); }, [&]() -> decltype(auto) { return pp.evaluate(t - 0.21, &h2, k); }, [](const Vec &v) { return fromVec(v); });
+    }
     VectorXd evalHintEnum(double t, int *hint, int k) const override
     {
         if (k < 0)
@@ -144,7 +151,10 @@ struct PPolyAdapter final : vf::IPPoly
             return false;
         }
     }
-    VectorXd segEval(int i, double tl, int k) const override { return fromVec(pp[i].evaluate(tl, k)); }
+    VectorXd segEval(int i, double tl, int k) const override
+    {
+        return vf::consumeHeld([&]() -> decltype(auto) { return pp[i].evaluate(tl, k); }, [&]() -> decltype(auto) { return pp[i].evaluate(tl * 0.5 + 0.01, k); }, [](const Vec &v) { return fromVec(v); });
+    }
     VectorXd segEvalEnum(int i, double tl, int k) const override
     {
         if (k < 0)
@@ -155,7 +165,23 @@ struct PPolyAdapter final : vf::IPPoly
     std::vector<vf::SegView> iterate(bool reverse) const override
     {
         std::vector<vf::SegView> r;
-        if (!reverse)
+        if (!reverse && vf::g_routes.hold)
+        {
+            // a Segment reached by dereferencing is a handle of ITS piece: still so after the iterator has moved on and has
+            // been dereferenced again
+            for (auto it = pp.begin(); it != pp.end();)
+            {
+                const auto &cur = *it;
+                ++it;
+                if (it != pp.end())
+                {
+                    const auto &nxt = *it;
+                    (void)nxt.index();
+                }
+                r.push_back(view(cur));
+            }
+        }
+        else if (!reverse)
         {
             for (auto it = pp.begin(); it != pp.end(); ++it)
                 r.push_back(view(*it));
@@ -184,6 +210,14 @@ struct PPolyAdapter final : vf::IPPoly
             auto it = pp.begin();
             for (int j = 0; j < i; ++j)
                 it++;
+            if (vf::g_routes.hold && i + 1 < pp.getNumSegments())
+            {
+                const auto &cur = *it;
+                ++it;
+                const auto &nxt = *it;
+                (void)nxt.duration();
+                return fromVec(cur.evaluate(tl, k));
+            }
             return fromVec((*it).evaluate(tl, k));
         }
         default:
